@@ -6,7 +6,7 @@ import shutil
 
 import vp
 from checks import loadfam, runtimefam
-from checks.fmtcat import CATALOGUE, FMT_LOCALES
+from checks.fmtcat import CATALOGUE, FMT_LOCALES, VALKEYS
 
 SYM_OF = {v: k for k, v in vp.LEX.items()}
 
@@ -80,6 +80,22 @@ def check(run):
         rows = [{"case": 1, "mode": "fmt", "calls": cs, "threads": threads}]
         runtimefam.replay_rows(run, rows, [{"catalogue": cat_syms}], "Trace_Formatter", "Trace_Formatter.cfg", "_l2_" + name,
                                key_of=lambda r, ev, nm=name: "l2;%s;%s;%s;%s;%s" % (nm, ev.get("via"), ev.get("key"), ev.get("locale"), sorted(r["tags"])[0].split(":")[0]))
+    # L2, values: the value universe of the specification (every numeric type with its extremes, floats by their shortest
+    # decimal, lists of every length, corner dates and times) through a few keys of each kind
+    vres = vp.tlc("MC_FormatterValues", "MC_FormatterValues.cfg", run.workdir, workers=1)
+    vp.tlc_ok(vres, "MC_FormatterValues")
+    run.add_mc("MC_FormatterValues (value universe)", vres)
+    values = [json.loads(c) for c in sorted(set(vres["tagged"].get("CASE", [])))]
+    if len(values) < 50:
+        raise vp.ToolError("too few formatter values")
+    vlocales = ["en", "fr", "ar"] if quick else all_locales
+    vcalls = [{"key": k, "locale": l, "kind": kind, "args": meaning[k]["args"], "ty": v["ty"], "text": v["text"]}
+              for v in values for kind in v["kinds"] for k in VALKEYS[kind] for l in vlocales]
+    runtimefam.replay_rows(run, [{"case": 1, "mode": "fmtval", "calls": vcalls}], [{"catalogue": cat_syms, "values": values}],
+                           "Trace_Formatter", "Trace_Formatter.cfg", "_l2_values",
+                           key_of=lambda r, ev: "values;%s;%s;%s;%s" % (ev.get("via"), ev.get("key"), ev.get("ty"), ev.get("text")),
+                           per_case_timeout=600)
+    run.notes["formatter_values"] = len(values)
     run.samples = [{"text": items[len(items) // 2][1], "abs": items[len(items) // 2][0]}, {"catalogue_key": "f_dt2", "text": CATALOGUE["f_dt2"], "meaning": meaning["f_dt2"]}]
     run.exhaustive = True
     run.notes["formatter_texts"] = len(items)
@@ -87,7 +103,8 @@ def check(run):
     run.assumptions = ["L1: every formatter kind with up to 2 written arguments (valid, unknown value, unknown name, duplicates) under 5 whitespace spellings",
                        "L2: a catalogue of %d formatter keys x 5 locales rendered by generated accessors in 3 call orders (fresh process each) and from 8 threads, "
                        "compared with direct ICU4X calls made with the options the specification derived from the text" % len(CATALOGUE),
-                       "ICU4X / CLDR is the oracle for the formatted output; one value per formatter kind"]
+                       "ICU4X / CLDR is the oracle for the formatted output; the catalogue is rendered for one value per kind, a few keys of each kind for "
+                       "the value universe of spec/FormatterValues.tla (every numeric input type, list lengths 0-5, corner dates / times)"]
     return run.finish("all formatter texts of the bounded grammar (L1) + catalogue x locales x histories (L2); non-trivial: texts with at least one written argument",
                       {"distinct_nontrivial": sum(1 for a, t in items if a["written"])})
 
